@@ -22,7 +22,7 @@ RULE = (
     'variables: Hypothesis-generated plus a fixed family (dyadic-linear programs that sit exactly on the convergence '
     'boundary, wrapping equations, many variables). Each program is translated by build_fortran_definition, compiled with '
     'gfortran -O0 (compilation must succeed), loaded through a ctypes shim with the f2py calling convention and driven '
-    'through FortranEngine; the pure-Python class built from the same symbols is the differential twin. Per program several '
+    'through FortranEngine; the pure-Python class built from the same symbols (and the same lags/leads/min_lags/min_leads settings, never shorter than the script needs) is the differential twin. Per program several '
     '(entry point, period spelling, option set, data) runs over evaluate / solve_t / solve: values within 1e-12*(1+|a|)*ops '
     'after one pass and 1e-9 relative after an iterative solve (exact for dyadic-linear programs), statuses, iteration '
     'counts, return values and exception types equal. Non-trivial: >= 2 equations and a lag or lead, or a wrapped line, or '
@@ -57,14 +57,29 @@ def selfcheck():
 _CACHE = {}
 
 
-def compile_program(prog, wrap_width=None):
-    key = repr((prog, wrap_width))
+def compile_program(prog, wrap_width=None, build_opts=None):
+    """build_opts: {'lags_plus': d, 'leads_plus': d, 'min_lags': m, 'min_leads': m} - the same lag/lead settings are given
+    to both builders; explicit lengths are only ever *raised* above what the script needs (a shorter explicit length makes
+    the Python class read wrapped-around periods, which has no Fortran counterpart)."""
+    key = repr((prog, wrap_width, build_opts))
     if key in _CACHE:
         return _CACHE[key]
     text, _ = G.render_program(prog, [])
     symbols = fsic.parse_model(text)
-    Py = fsic.build_model(symbols)
-    ftext = build_fortran_definition(symbols) if wrap_width is None else build_fortran_definition(symbols, wrap_width=wrap_width)
+    kw = {}
+    if build_opts:
+        base = fsic.build_model(symbols)
+        if 'lags_plus' in build_opts:
+            kw['lags'] = base.LAGS + build_opts['lags_plus']
+        if 'leads_plus' in build_opts:
+            kw['leads'] = base.LEADS + build_opts['leads_plus']
+        for k in ('min_lags', 'min_leads'):
+            if k in build_opts:
+                kw[k] = build_opts[k]
+    Py = fsic.build_model(symbols, **kw)
+    if wrap_width is not None:
+        kw = dict(kw, wrap_width=wrap_width)
+    ftext = build_fortran_definition(symbols, **kw)
     try:
         eng = FC.Engine(ftext)
     except FC.CompileError as e:
@@ -164,7 +179,7 @@ def check_case(case):
     res = Result(classes=sorted(feats))
     risky = risky_literals(prog)
     lit = ('/literal:' + '+'.join(risky)) if risky else ''
-    built = attempt(compile_program, prog, case.get('wrap_width'))
+    built = attempt(compile_program, prog, case.get('wrap_width'), case.get('build_opts'))
     if not built.ok:
         res.tag('skipped:python-side-rejected')
         return res
@@ -176,6 +191,8 @@ def check_case(case):
         res.fail(f'compile-failed/{cls}{lit}', f'{text!r}: gfortran: {" ".join(first)[:300]}')
         return res
     _, text, Py, F, ftext = built.value
+    if case.get('build_opts'):
+        res.tag('lag-lead-settings')
     wrapped = '&\n&' in ftext.split('subroutine evaluate')[1].split('end subroutine evaluate')[0]
     trans = 'replaced-call' in feats
     res.nontrivial = (len([s for s in prog if s[0] == 'assign']) >= 2 and 'offset' in feats) or wrapped or trans
@@ -376,8 +393,10 @@ def runs_strategy():
 
 def strategy():
     from hypothesis import strategies as st
+    bo = st.sampled_from([None, None, None, {'min_lags': 2}, {'min_leads': 1}, {'lags_plus': 1}, {'leads_plus': 2},
+                          {'lags_plus': 0, 'min_lags': 3}, {'lags_plus': 2, 'leads_plus': 1}, {'min_lags': 1, 'min_leads': 2}])
     return st.fixed_dictionaries({'prog': restricted_programs(), 'runs': runs_strategy(),
-                                  'wrap_width': st.sampled_from([None, None, None, 60, 80, 120])})
+                                  'wrap_width': st.sampled_from([None, None, None, 60, 80, 120]), 'build_opts': bo})
 
 
 def V(name, idx=None, kind='v'):
